@@ -49,8 +49,8 @@ VH = {
                      "non-trivial = the partitions have different block counts and N>=2; distinct by model + partition set"),
     "C19": dict(drivers=[dict(driver="trunc", flavours=P2, timeout=120)],
                 floor=dict(quick=40, thorough=4000),
-                rule="cases = generated model x beta in [1,200] x eps in {0,1e-14,1e-10,1e-6,1e-3,1e-2,0.3}; one pipeline, observables built twice: with the untruncated DensityMatrix and with a copy after truncateBlocks(eps); "
-                     "monitors: discarded block => all its weights <= eps; |dG|<=2 eps dim/|w_n| (and 2 eps dim in tau), |d<c+c>|<=eps dim, |d chi(iW)|<=eps dim max(1/|W|,beta), |d chi(tau)|<=eps dim, |d chi4|<=eps dim^2 beta^3; eps=0 => identical; "
+                rule="cases = generated model x beta in [1,200] x eps in {0,1e-14,1e-10,1e-6,1e-3,1e-2,0.3}; one pipeline, observables built twice: with the untruncated DensityMatrix and with a second DensityMatrix after a sequence of truncateBlocks calls (single / larger tolerance first / smaller first / repeated, each call with a random verbose flag) ending in truncateBlocks(eps); "
+                     "monitors: discarded block => all its weights <= eps; |dG|<=2 eps dim/|w_n| (and 2 eps dim in tau), |d<c+c>|<=eps dim, |d chi(iW)|<=eps dim max(1/|W|,beta), |d chi(tau)|<=eps dim, |d chi4|<=eps dim^2 beta^3; eps=0 => identical; a GFContainer computed after the first request and prepared/computed again after the last equals a fresh one; "
                      "non-trivial = >=2 blocks and (>=1 block discarded or eps=0); distinct by model+eps"),
     "C13": dict(drivers=[dict(driver="g2cont", flavours=P2, timeout=120)],
                 floor=dict(quick=40, thorough=1600),
@@ -83,12 +83,12 @@ VH = {
                 floor=dict(quick=20, thorough=200),
                 rule="cases = generated model (N<=4 quick, <=5 thorough; degenerate classes over-represented) x partition x {real,complex}; per case 5-9 index quadruples (equal and distinct indices) x "
                      "14-24 Matsubara triples incl. n1=n3, n2=n3, n1+n2=-1 against the triple time-ordered integral evaluated by 4-block matrix exponentials (6 orderings); tables of compute(false,freqs) and "
-                     "compute(true,freqs) vs on-demand on a 129-point grid; non-trivial = the exercised objects held >=1 resonant term and >=1 component is non-vanishing; distinct by model+partition"),
+                     "compute(true,freqs) vs on-demand on a 129-point grid; every 8th case cold (beta 150..1500); non-trivial = the exercised objects held >=1 resonant term and >=1 component is non-vanishing; distinct by model+partition"),
     "C10": dict(drivers=[dict(driver="fieldop", flavours=P2, timeout=60)],
                 floor=dict(quick=40, thorough=1200),
                 rule="cases = generated model x partition (default/ignored/custom integer-linear) x {real,complex}; for every index: c, c+ computed one by one and through FieldOperatorContainer, "
                      "c+_i c_j for all/sampled pairs; monitors: stored blocks (row- and column-major copies) rotated back with the stored eigenvectors == Jordan-Wigner matrix, stored c == adjoint of stored c+ "
-                     "(assembled and per part), block maps transposed, {c_i,c+_j}=delta_ij, {c_i,c_j}=0 assembled over all blocks; non-trivial = dim>=4 and H not diagonal; distinct by model+partition"),
+                     "(assembled and per part), by-value copies of computed parts hold the same two matrices, block maps transposed, {c_i,c+_j}=delta_ij, {c_i,c_j}=0 assembled over all blocks; non-trivial = dim>=4 and H not diagonal; distinct by model+partition"),
     "C09": dict(drivers=[dict(driver="dm", flavours=P2, timeout=30)],
                 floor=dict(quick=60, thorough=2000),
                 rule="cases = generated model x partition (default/ignored/custom) x beta log-uniform in [1e-3,1e3] x stress class (none / uniform offset +-1e3..1e6 / bandwidth x10..1e3); "
@@ -103,7 +103,7 @@ VH = {
     "C01": dict(drivers=[dict(driver="gfdef", flavours=P2, timeout=60)],
                 floor=dict(quick=40, thorough=400),
                 rule="cases = generated model x partition (default / every 3rd: symmetries ignored) x {real,complex}; per case all (N<=4) or sampled index pairs x 12 Matsubara numbers "
-                     "(-3..3, +-50, -51, +-1000) through stand-alone GreensFunction, GFContainer and the complex-argument overload; oracle = full-space Lehmann sum of an independent ED, "
+                     "(-3..3, +-50, -51, +-1000) through stand-alone GreensFunction, GFContainer, the complex-argument overload and copies taken at each stage and computed again; every 6th case cold (beta 150..3000, weights underflow); oracle = full-space Lehmann sum of an independent ED, "
                      "cross-checked against the two-block matrix-exponential integral for N<=4(5); tolerance = dropped residues <=1e-8 / distance + pole-merge and like-term allowances "
                      "computed in the library's eigenbasis; non-trivial = H has off-diagonal elements and dim>=4; distinct by canonical model description + partition"),
     "C03": dict(drivers=[dict(driver="ham", flavours=P2, timeout=30)],
